@@ -66,6 +66,12 @@ def fixed_cases():
         add({'m': 'DEFINE foo AS x := $%s END DEFINE foo' % big}, 'm', 'insertion_index')
         add({'m': 'DEFINE foo <V> AS x := $%s END DEFINE foo 3' % big}, 'm', 'insertion_index')
         add({'m': 'DEFINE foo <V> <V> AS x := $1 ; y := $%s END DEFINE foo 3 4; z := 1' % big}, 'm', 'insertion_index')
+    # insertion indices at and around the number of slots, in macros that are APPLIED (numbering from $1 instead of $0)
+    for k in (0, 1, 2, 3, 4):
+        add({'m': 'DEFINE SWAP <ID> <ID> AS #0 := $1; $1 := $%d; $%d := #0 END DEFINE\na := 1;\nb := 2;\nSWAP a b' % (k, k)}, 'm', 'insertion_edge')
+        add({'m': 'DEFINE one <V> AS x := $%d END DEFINE\none 3; one y' % k}, 'm', 'insertion_edge')
+        add({'m': 'DEFINE none AS x := $%d END DEFINE\nnone' % k}, 'm', 'insertion_edge')
+        add({'m': 'DEFINE three <ID> <INT> <V> AS $0 := $%d + $1 END DEFINE\nthree a 4 b' % k}, 'm', 'insertion_edge')
     add({'m': 'DEFINE foo RUN <ID> WITH <ARGS> END AS $0 := RUN $0 WITH END END DEFINE\nfoo x1 + 1'}, 'm', 'hidden_tokens')
     add({'m': 'DEFINE bar <V> AS RUN nosuch WITH $0 END END DEFINE\nx := bar y - 2'}, 'm', 'hidden_tokens')
     add({'m': 'DEFINE PRIO 2000000 <ID> + <INT> AS RUN nosuch WITH END END DEFINE\nx := y + 1'}, 'm', 'hidden_tokens')
